@@ -162,7 +162,8 @@ def oplists_from_hists(pid, hists, cmaps, rng, limit):
         hs = ok or hs
     limit = min(int(limit * HIST_FACTOR.get(pid, 1)), 1500)
     hs, n_classes, n_single = world.stratified(hs, rng, limit)
-    STRATA[pid] = {"signature_sequence_classes": n_classes, "single_operation_signatures": n_single, "behaviours_selected": len(hs)}
+    STRATA[pid] = {"signature_sequence_classes": n_classes, "single_operation_signatures": n_single[0],
+                   "single_operation_signatures_replayed": n_single[1], "behaviours_selected": len(hs)}
     out = []
     for k, h in enumerate(hs):
         cmap = world.CONCRETE[cmaps[k % len(cmaps)]]
